@@ -260,6 +260,33 @@ class Unit:
     def __init__(self, unit_path):
         with open(unit_path, 'rb') as f:
             self.spec = tomllib.load(f)
+        # merge included units (files, fns, shims, specs, item_extra); the including unit wins on duplicates
+        for inc in self.spec.get('include', []):
+            with open(os.path.join(os.path.dirname(unit_path), inc + '.toml'), 'rb') as f:
+                sub = tomllib.load(f)
+            for key in ('shims', 'specs'):
+                merged = list(sub.get(key, []))
+                for x in self.spec.get(key, []):
+                    if x not in merged:
+                        merged.append(x)
+                self.spec[key] = merged
+            have_files = {f['path']: f for f in self.spec.get('file', [])}
+            for f in sub.get('file', []):
+                if f['path'] in have_files:
+                    tgt = have_files[f['path']]
+                    if 'keep' in tgt and 'keep' in f:
+                        tgt['keep'] = list(dict.fromkeys(list(f['keep']) + list(tgt['keep'])))
+                    for k in ('extra', 'pre'):
+                        if f.get(k):
+                            tgt[k] = f[k] + '\n' + tgt.get(k, '')
+                else:
+                    self.spec.setdefault('file', []).insert(0, f)
+            have_fns = set((f['file'], f.get('item', ''), f['name']) for f in self.spec.get('fn', []))
+            for fo in sub.get('fn', []):
+                if (fo['file'], fo.get('item', ''), fo['name']) not in have_fns:
+                    self.spec.setdefault('fn', []).append(fo)
+            for ie in sub.get('item_extra', []):
+                self.spec.setdefault('item_extra', []).append(ie)
         self.name = self.spec['name']
         self.unit_path = unit_path
         self.report = dict(unit=self.name, files=[], rules=[], functions=[], assumptions=[],
@@ -313,7 +340,7 @@ class Unit:
                 node = node.setdefault('mods', {}).setdefault(part, {})
             node.setdefault('files', []).append(f)
         self.emit("// GENERATED by tools/vx.py from %s — do not edit" % os.path.relpath(self.unit_path, HERE), ('gen',))
-        self.emit("#![allow(unused_imports, dead_code, unused_variables, unused_mut, unused_assignments, non_snake_case, unused_parens, unused_braces, unreachable_patterns, unreachable_code)]", ('gen',))
+        self.emit("#![allow(mismatched_lifetime_syntaxes, unused_imports, dead_code, unused_variables, unused_mut, unused_assignments, non_snake_case, unused_parens, unused_braces, unreachable_patterns, unreachable_code)]", ('gen',))
         self.emit("use vstd::prelude::*;", ('gen',))
         self.emit("verus! {", ('gen',))
         self.emit("global size_of usize == 8;", ('gen',))
@@ -325,7 +352,11 @@ class Unit:
             self.emit_file_raw(p, 'spec')
         self.fn_overlays = fns
         self.used_overlays = set()
+        self.used_item_extra = set()
         self.emit_tree(tree, included_modules, [])
+        for ix, ie in enumerate(spec.get('item_extra', [])):
+            if ix not in self.used_item_extra:
+                raise LostAnchor("item_extra for %s in %s matched nothing" % (ie['item'], ie['file']))
         for idx, fo in enumerate(fns):
             if idx not in self.used_overlays:
                 raise LostAnchor("overlay for fn %s in %s (%s) matched nothing" %
@@ -390,6 +421,11 @@ class Unit:
                 if target not in included and modname not in ('crate', 'super', 'self'):
                     dropped.append(key)
                     continue
+                if modname not in ('crate', 'super', 'self', 'std', 'core', 'alloc', 'vstd'):
+                    # inside verus!{} a module named `bool`/`int` is ambiguous with the builtin type: qualify with self::
+                    k = it['hdr_a'] + m.start(3)
+                    ed.add(k, k, 'self::', 'D3')
+                    self.rule('D3', path, line_of(text, k), '`pub use %s::` -> `pub use self::%s::`' % (m.group(3), m.group(3)))
             ok = True
             if keep_re:
                 ok = False
@@ -465,11 +501,37 @@ class Unit:
             if cnt == 0:
                 raise LostAnchor("rewrite %r matched nothing in %s" % (rw['from'], path))
 
+        # ---- T1: `impl<'a> TryFrom<&'a [u8]> for X<'a>` -> inherent `impl<'a> X<'a> { pub fn try_from }` (body verbatim)
+        if f.get('tryfrom_inherent'):
+            for it in kept:
+                m = re.match(r"^impl<'a> TryFrom<&'a \[u8\]> for (\w+)<'a>$", it['key'])
+                if not m:
+                    continue
+                hdr_end = it['body_open']
+                ed.add(it['hdr_a'], hdr_end, "impl<'a> %s<'a> " % m.group(1), 'T1')
+                body = text[it['body_open']:it['b']]
+                tm = re.search(r'type Error = SnmpError;\s*\n', body)
+                if not tm:
+                    raise LostAnchor("T1: no `type Error = SnmpError;` in %s of %s" % (it['key'], path))
+                ed.add(it['body_open'] + tm.start(), it['body_open'] + tm.end(), '', 'T1')
+                fm = re.search(r'\bfn try_from\(', body)
+                ed.add(it['body_open'] + fm.start(), it['body_open'] + fm.start(), 'pub ', 'T1')
+                for em in re.finditer(r'Self::Error', body):
+                    ed.add(it['body_open'] + em.start(), it['body_open'] + em.end(), 'SnmpError', 'T1')
+                self.rule('T1', path, line_of(text, it['hdr_a']), '`%s` emitted as inherent `impl<\'a> %s<\'a> { pub fn try_from }` (Verus cannot put a contract on a foreign-trait impl)' % (it['key'], m.group(1)))
+                it['key_t1'] = "impl<'a> %s<'a>" % m.group(1)
         # ---- per-function overlays
         fn_spans = []  # (a, b, qualified name)
         for it in kept:
             key = it['key']
             if it['body_open'] is not None and re.match(r'^(pub(\([a-z]+\))? )?(unsafe )?(impl|trait)\b', key):
+                for ix, ie in enumerate(self.spec.get('item_extra', [])):
+                    if ie['file'] == path and re.search(ie['item'], key):
+                        ed.edits.append((it['body_open'] + 1, it['body_open'] + 1, '\n' + ie['text'].rstrip() + '\n',
+                                         'item_extra:%s:%s' % (path, ie['item'])))
+                        self.used_item_extra.add(ix)
+                        for m in re.finditer(r'(external_body|assume_specification|\bassume\s*\(|\badmit\s*\(|uninterp|#\[verifier::truncate\])', ie['text']):
+                            self.report['assumptions'].append(dict(where="%s (%s)" % (path, ie['item']), what=m.group(1), text=ie.get('why', '')))
                 inner = split_items(text, it['body_open'] + 1, it['b'] - 1)
                 for sub in inner:
                     nm = fn_name_of(sub['key'])
@@ -482,6 +544,8 @@ class Unit:
         # ---- emit
         self.emit("// ---- %s" % path, ('gen',))
         self.emit("use vstd::prelude::*;", ('gen',))
+        if 'std.rs' in self.spec.get('shims', []):
+            self.emit("broadcast use crate::stdspec::group_std_axioms;", ('gen',))
         if f.get('pre'):
             self.emit(f['pre'], ('ovl', 'pre:' + path))
         for it in kept:
